@@ -539,3 +539,17 @@ Proof.
   unfold filter_ids, flt. destruct a; cbn [cast_t sel ids mds other oids sids omd smd ttype mat];
     repeat split; apply kept_is_filter.
 Qed.
+
+(* ---- parse_table on an open HDF5 handle *)
+Theorem parse_table_h5_eq_proof ids_ a f :
+  wf_file f -> NoDup ids_ -> ids_ <> [] -> (forall i, In i ids_ -> In i (file_ids a f)) ->
+  parse_table_h5 ids_ a f = ROk (drop_empty_other a (filter_ids ids_ a (from_hdf5_all f))).
+Proof.
+  intros W N H S. unfold parse_table_h5. rewrite (hdf5_subset_eq_proof ids_ a f W N H S). reflexivity.
+Qed.
+
+Theorem parse_table_h5_refuses_proof ids_ a f :
+  wf_file f -> (exists i, In i ids_ /\ ~ In i (file_ids a f)) -> parse_table_h5 ids_ a f = RErr E_TYPE.
+Proof.
+  intros W U. unfold parse_table_h5. rewrite (hdf5_subset_refuses_proof ids_ a f W U). reflexivity.
+Qed.
